@@ -43,6 +43,10 @@ def scenarios(rng, n, tier):
                 o["w"] = [rng.randint(1, 16), rng.choice([1, 2, 4, 8])]
             if rng.random() < 0.3:
                 o["max_att"] = 1
+            elif rng.random() < 0.3:
+                # a one-shot made with once(timedelta): its weight must reach the priority function like any other job's
+                o["call"] = 5
+                o.pop("start", None)
             if rng.random() < 0.4:
                 off = tz
                 st = clock - rng.choice([0, 1, 2, 64, 6400]) * GRID
@@ -113,6 +117,19 @@ def direct_specs(r):
     """arguments of the priority function: (now - due in seconds, job, max_exec, #registered), once per job"""
     fails = runlib.waiting_unchanged(r, "a job left waiting by the limit did not keep its due time / counters")
     scn = r["scn"]
+    # the weight the priority function sees is the weight the job was scheduled with (oracle: the scenario, not the job)
+    want_w = {}
+    nk = 0
+    for o, ob in zip(scn["ops"], r["obs"]):
+        if "truncated" in ob:
+            break
+        if o["op"] == "sch" and ob["res"][0] == "j":
+            want_w[ob["res"][1]] = Fraction(o.get("w", [1, 1])[0], o.get("w", [1, 1])[1])
+        if o["op"] == "exec":
+            for p_ in ob.get("prio", []):
+                if p_[0] in want_w and Fraction(p_[6]) != want_w[p_[0]]:
+                    fails.append({"info": {"what": "the job's weight is not the weight it was scheduled with", "key": p_[0], "got": str(p_[6]), "want": str(want_w[p_[0]])}})
+                    break
     for i, (o, ob) in enumerate(zip(scn["ops"], r["obs"])):
         if "truncated" in ob:
             break
